@@ -13,7 +13,7 @@ from __future__ import annotations
 import ast
 
 from ..cfg import own_statements
-from ..model import AnalysisError
+from ..model import AnalysisError, FunctionInfo
 from ..report import Result, mk_finding
 from .common import unparse
 from .kind_rules import functions_of, run_kinds
@@ -83,12 +83,72 @@ def is_nodes_iter(e, hname):
     return False
 
 
-def key_source(fn, e, hname, depth=0):
+def is_edge_items(e, hname):
+    """H.edges.members(dtype=dict).items() / H.edges.members(dtype=dict) / H.edges: (edge id, members) pairs or edge ids"""
+    if isinstance(e, ast.Call) and isinstance(e.func, ast.Attribute) and e.func.attr == "items" and not e.args:
+        return is_edge_items(e.func.value, hname) == "ids" and "items"
+    if isinstance(e, ast.Call) and isinstance(e.func, ast.Attribute) and e.func.attr == "members" and isinstance(e.func.value, ast.Attribute) and e.func.value.attr == "edges":
+        if any(k.arg == "dtype" and isinstance(k.value, ast.Name) and k.value.id == "dict" for k in e.keywords):
+            return "ids"
+        return False
+    if isinstance(e, ast.Attribute) and e.attr == "edges" and isinstance(e.value, ast.Name):
+        return "ids"
+    return False
+
+
+def loop_key_ok(it, tgt, key, hname, edges):
+    """A loop/comprehension `for tgt in it` stores under `key`: do the keys range over the node (or edge) view?"""
+    if not isinstance(key, ast.Name):
+        return False
+    if is_nodes_iter(it, hname) and not edges and isinstance(tgt, ast.Name) and tgt.id == key.id:
+        return True
+    if edges:
+        kind = is_edge_items(it, hname)
+        if kind == "ids" and isinstance(tgt, ast.Name) and tgt.id == key.id:
+            return True
+        if kind == "items" and isinstance(tgt, ast.Tuple) and tgt.elts and isinstance(tgt.elts[0], ast.Name) and tgt.elts[0].id == key.id:
+            return True
+    return False
+
+
+def stores_into(fn, name):
+    """(store statement, key expr, enclosing For or None) for every `name[key] = ...` in fn."""
+    out = []
+
+    def rec(stmts, loops):
+        for st in stmts:
+            if isinstance(st, (ast.FunctionDef, ast.AsyncFunctionDef, ast.ClassDef)):
+                continue
+            if isinstance(st, (ast.Assign, ast.AugAssign)):
+                tgts = st.targets if isinstance(st, ast.Assign) else [st.target]
+                for t in tgts:
+                    if isinstance(t, ast.Subscript) and isinstance(t.value, ast.Name) and t.value.id == name:
+                        out.append((st, t.slice, list(loops)))
+            inner = loops + [st] if isinstance(st, ast.For) else loops
+            for field in ("body", "orelse", "finalbody"):
+                sub = getattr(st, field, None)
+                if isinstance(sub, list):
+                    rec(sub, inner if field == "body" else loops)
+            for h in getattr(st, "handlers", []) or []:
+                rec(h.body, loops)
+
+    rec(fn.node.body, [])
+    return out
+
+
+def key_source(fn, e, hname, depth=0, edges=False, repo=None, self_name=None):
     """Where do the keys of dict-valued expression e come from? Returns (ok, description)."""
     if depth > 5:
         return False, "too deep"
     if isinstance(e, ast.Dict) and not e.keys:
-        return True, "empty"
+        if self_name is None:
+            return True, "empty"
+        # filled by subscript stores: every store's key must range over the view
+        stores = stores_into(fn, self_name)
+        for st, key, loops in stores:
+            if not any(loop_key_ok(lp.iter, lp.target, key, hname, edges) for lp in loops):
+                return False, f"`{unparse(st, 40)}` stores under a key that does not range over the {'edge' if edges else 'node'} view"
+        return True, "empty" if not stores else f"filled in a loop over the {'edge' if edges else 'node'} view"
     if isinstance(e, ast.Dict):
         # {list(H.nodes)[0]: center}
         ok = all(isinstance(k, ast.Subscript) and is_nodes_iter(k.value, hname) for k in e.keys)
@@ -96,8 +156,8 @@ def key_source(fn, e, hname, depth=0):
     if isinstance(e, ast.DictComp):
         it = e.generators[0].iter
         tgt = e.generators[0].target
-        if is_nodes_iter(it, hname) and isinstance(tgt, ast.Name) and isinstance(e.key, ast.Name) and e.key.id == tgt.id and not e.generators[0].ifs:
-            return True, "comprehension over the node view"
+        if len(e.generators) == 1 and not e.generators[0].ifs and loop_key_ok(it, tgt, e.key, hname, edges):
+            return True, f"comprehension over the {'edge' if edges else 'node'} view"
         # {nodedict[i]: pos[i] for i in nodedict}  (index map of to_bipartite_graph)
         if isinstance(it, ast.Name) and isinstance(e.key, ast.Subscript) and isinstance(e.key.value, ast.Name) and e.key.value.id == it.id:
             for d in defs_of(fn, it.id):
@@ -121,6 +181,17 @@ def key_source(fn, e, hname, depth=0):
                     if cname in ("_augmented_projection", "to_bipartite_graph"):
                         return "aux", f"networkx layout of {cname}({hname}) (auxiliary nodes present)"
             return False, f"layout of graph `{g}` of unknown origin"
+        # a private helper of the same module that receives the network: its returned dict decides
+        if repo is not None and isinstance(e.func, ast.Name):
+            tgt = repo.resolve_name(fn, fn.module, e.func.id)
+            if isinstance(tgt, FunctionInfo) and tgt.module is fn.module and tgt.cls is None:
+                for i, a in enumerate(e.args):
+                    if isinstance(a, ast.Name) and a.id == hname and i < len(tgt.params):
+                        rets = [r for r in own_statements(tgt.node) if isinstance(r, ast.Return) and r.value is not None]
+                        if rets:
+                            vs = [key_source(tgt, r.value, tgt.params[i], depth + 1, edges, repo) for r in rets]
+                            bad = [v for v in vs if v[0] is not True]
+                            return (bad[0][0], f"{tgt.name}: {bad[0][1]}") if bad else (True, f"{tgt.name}: {vs[0][1]}")
         return False, f"result of `{unparse(e.func, 30)}`"
     if isinstance(e, ast.Name):
         ds = defs_of(fn, e.id)
@@ -131,7 +202,7 @@ def key_source(fn, e, hname, depth=0):
             if isinstance(d, tuple):
                 verdicts.append((False, "unpacked value"))
             else:
-                verdicts.append(key_source(fn, d, hname, depth + 1))
+                verdicts.append(key_source(fn, d, hname, depth + 1, edges, repo, self_name=e.id))
         if any(v[0] == "aux" for v in verdicts):
             return "aux", verdicts[0][1]
         bad = [v for v in verdicts if not v[0]]
@@ -140,7 +211,7 @@ def key_source(fn, e, hname, depth=0):
             return True, verdicts[-1][1]
         return (not bad), (bad[0][1] if bad else verdicts[-1][1])
     if isinstance(e, ast.IfExp):
-        a, b = key_source(fn, e.body, hname, depth + 1), key_source(fn, e.orelse, hname, depth + 1)
+        a, b = key_source(fn, e.body, hname, depth + 1, edges, repo), key_source(fn, e.orelse, hname, depth + 1, edges, repo)
         return (a[0] is True and b[0] is True), a[1] if a[0] is not True else b[1]
     return False, f"`{unparse(e, 40)}`"
 
@@ -154,7 +225,7 @@ def check_keys(repo, res, fn):
         v = r.value
         parts = v.elts[:1] if isinstance(v, ast.Tuple) and fn.name != "bipartite_spring_layout" else (list(v.elts) if isinstance(v, ast.Tuple) else [v])
         for part in parts:
-            ok, why = key_source(fn, part, hname)
+            ok, why = key_source(fn, part, hname, edges=(fn.name == "edge_positions_from_barycenters"), repo=repo)
             if ok == "aux":
                 ok, why = False, why + " returned without restricting the keys to the node view"
             res.inst("L-KEYS", f"{fn.qualname}:{r.lineno} `{unparse(part, 30)}`: {why}", ok is True)
